@@ -133,8 +133,9 @@ CHECKS = {
         "level_note": "magic values other than 2049 may exist; the generator is aimed at this one because reading skipFile shows it matters.",
         "rule": ("rapid draws (build pair, compression, optimized?, whitelist mode). Non-trivial: non-empty whitelist and a skipped series "
                  "adjacent to a processed one. Distinct: SHA-1 of the spec."),
-        "assumptions": [],
-        "required_classes": {"quick": ["skipped:bsdiff", "skipped:rsync", "skipped:wholefile", "selected:bsdiff", "skipped:bsdiff-target-2049"],
+        "assumptions": ["the whitelisted set is {i : map[i] == true}: in a quarter of the cases the map handed to the patcher also carries an explicit false entry "
+                        "for every other file (a caller writing wl[i] = needsPatching(i)); the patcher's own test is !whitelist[i]"],
+        "required_classes": {"quick": ["skipped:bsdiff", "skipped:rsync", "skipped:wholefile", "selected:bsdiff", "skipped:bsdiff-target-2049", "whitelist:explicit-false-entries"],
                              "thorough": ["skipped:bsdiff", "skipped:rsync", "skipped:wholefile", "selected:bsdiff", "skipped:bsdiff-target-2049", "skipped:emptyfile"]},
         "stages": [rapid("whitelist", "TestProp", 12000, 256000, qs=16, ts=16, qt=600, tt=5400),
                    rapid("magic", "TestMagic", 12, 200, qs=4, ts=8, qt=600, tt=3000, shrinktime="5s")],
